@@ -18,6 +18,10 @@
                                encode pass
      DirectFormatCodec.h       fmtquill::formatted_size (size pass) and format_to_n (encode pass):
                                the only codec that calls libfmt on the caller
+     std/Map.h, UnorderedMap.h every element (std::pair<const Key, T>) is passed to
+                               Codec<std::pair<Key, T>>, i.e. converted to a temporary
+                               std::pair<Key, T> - Key and T are copy-constructed, in the size pass
+                               and again in the encode pass (finding C11-F1)
 
    The allocation sources are exactly the constructors of [alloc_source]; anything an unmodelled
    piece of code allocates is invisible here (that part of C11 is sampled on the binary). *)
@@ -40,7 +44,9 @@ Inductive alloc_source :=
 | AShrinkNode (cap : N)   (* (3) UnboundedSPSCQueue::shrink: new Node{cap} *)
 | AThrowMsg               (* (3) record larger than unbounded_queue_max_capacity: QuillError message strings *)
 | AUserCopy (w a : N)     (* (4) T(arg) of a not trivially copyable DeferredFormatCodec type: user code *)
-| APathString (len : N).  (* (4) fs::path::string(): temporary std::string of len bytes *)
+| APathString (len : N)   (* (4) fs::path::string(): temporary std::string of len bytes *)
+| ATempCopy (t : ty) (v : val).  (* (5) a map element converted to a temporary std::pair<Key, T>: the copy
+                                    constructor of a Key / T whose copy may allocate (std::string, containers, user types) *)
 
 (* ---------------------------------------------------------------- the values the codecs visit *)
 (* [leaves t v]: the leaf (non-container) values the size / encode pass of Codec<t> visits, in
@@ -102,6 +108,73 @@ Definition leaf_alloc (encp : bool) (p : ty * val) : list alloc_source :=
 (* where formatting runs: the codec of this kind calls libfmt at the call site *)
 Definition formats_on_caller (t : ty) : bool := match t with Direct => true | _ => false end.
 Definition leaf_fmt (p : ty * val) : list (ty * val) := if formats_on_caller (fst p) then [p] else [].
+
+(* (5): the temporaries of one pass.  A map element VL [k; x] becomes a std::pair<Key, T> (copies of
+   k and x); Codec<std::pair<Key, T>> then visits the copies, which may again hold maps. *)
+Definition pairT (kt vt : ty) (f g : leafF) : leafF := fun v =>
+  match v with
+  | VL l => (match l with [k; x] => [(kt, k); (vt, x)] | _ => [] end) ++ leaf_zip [f; g] l
+  | _ => []
+  end.
+
+Fixpoint temps (t : ty) (v : val) {struct t} : list (ty * val) :=
+  match t with
+  | Seq _ t' =>
+    match v with
+    | VL l => match arith_w t' with Some _ => [] | None => leaf_zip (repeat (temps t') (length l)) l end
+    | _ => []
+    end
+  | FwdList t' =>
+    match v with VL l => leaf_zip (repeat (temps t') (length l)) l | _ => [] end
+  | Arr n t' =>
+    match v with
+    | VL l => match arith_w t' with Some _ => [] | None => leaf_zip (repeat (temps t') n) l end
+    | _ => []
+    end
+  | Opt t' => match v with VO (Some x) => temps t' x | _ => [] end
+  | Pair a b => pairL (temps a) (temps b) v
+  | Tuple ts => match v with VL l => leaf_zip (map temps ts) l | _ => [] end
+  | MapLike _ kt vt =>
+    match v with
+    | VL l =>
+      match arith_w kt, arith_w vt with
+      | Some _, Some _ => []
+      | _, _ => leaf_zip (repeat (pairT kt vt (temps kt) (temps vt)) (length l)) l
+      end
+    | _ => []
+    end
+  | _ => []
+  end.
+
+Definition stmt_temps (ts : list ty) (vs : list val) : list (ty * val) := leaf_zip (map temps ts) vs.
+
+(* copying a value of this type can never allocate: scalars, pointers, views and aggregates of those *)
+Fixpoint copy_free (t : ty) : bool :=
+  match t with
+  | Fixed _ _ | CStr | CharArr _ | LenStr KStrView | StringRef => true
+  | Opt t' | Arr _ t' => copy_free t'
+  | Pair a b => copy_free a && copy_free b
+  | Tuple ts => forallb copy_free ts
+  | _ => false
+  end.
+
+Definition temp_alloc (p : ty * val) : list alloc_source :=
+  if copy_free (fst p) then [] else [ATempCopy (fst p) (snd p)].
+
+(* every map inside t has arithmetic / enum key and mapped type (not iterated) or a key and a mapped
+   type whose copies cannot allocate *)
+Fixpoint map_ok (t : ty) : bool :=
+  match t with
+  | Seq _ t' | FwdList t' | Arr _ t' | Opt t' => map_ok t'
+  | Pair a b => map_ok a && map_ok b
+  | Tuple ts => forallb map_ok ts
+  | MapLike _ kt vt => copy_free kt && copy_free vt && map_ok kt && map_ok vt
+  | _ => true
+  end.
+
+(* what one pass over the arguments allocates by itself: (4) and (5) *)
+Definition pass_allocs (encp : bool) (ts : list ty) (vs : list val) : list alloc_source :=
+  flat_map (leaf_alloc encp) (stmt_leaves ts vs) ++ flat_map temp_alloc (stmt_temps ts vs).
 
 (* [all_leaf q t]: every leaf type occurring in t satisfies q *)
 Fixpoint all_leaf (q : ty -> bool) (t : ty) : bool :=
@@ -221,13 +294,13 @@ Definition log_step (cf : cfg) (s : tstate) (ts : list ty) (vs : list val) (dyn 
   let (s0, a0) := register cf s in
   let '(sz, c1, a1) := size_pass (t_cache s0) ts vs in
   let lv := stmt_leaves ts vs in
-  let a1' := flat_map (leaf_alloc false) lv in
+  let a1' := pass_allocs false ts vs in
   let f1 := flat_map leaf_fmt lv in
   let total := HEADER_SIZE + sz + dyn_size dyn in
   let '(nd, r, a2) := reserve cf (t_node s0) total in
   match r with
   | RGot _ =>
-    let a3 := flat_map (leaf_alloc true) lv in
+    let a3 := pass_allocs true ts vs in
     let q' := commit_write (finish_write ideal (n_q nd) total) in
     ({| t_reg := true; t_cache := c1; t_node := {| n_cap := n_cap nd; n_q := q' |} |},
      {| allocs := a0 ++ a1 ++ a1' ++ a2 ++ a3; fmts := f1 ++ f1; res := LEnqueued; reserved := total |})
